@@ -267,8 +267,8 @@ def _run_sizer(c, sizer, dt, wts, state, S, clause, clause_zero):
     return sizer(dt, wts)
 
 
-canary('buffer added instead of subtracted', DW, '__call__', '(1.0 - self.cash_buffer_percentage)', '(1.0 + self.cash_buffer_percentage)')(dw_call)
-canary('quantity from the pre-cost amount', DW, '__call__', 'np.floor(\n                    after_cost_dollar_weight / asset_price', 'np.floor(\n                    pre_cost_dollar_weight / asset_price')(dw_call)
+canary('buffer added instead of subtracted', DW, '__call__', '1.0 - self.cash_buffer_percentage', '1.0 + self.cash_buffer_percentage')(dw_call)
+canary('quantity from the pre-cost amount', DW, '__call__', 'np.floor(after_cost_dollar_weight / asset_price)', 'np.floor(pre_cost_dollar_weight / asset_price)')(dw_call)
 canary('round instead of floor', DW, '__call__', 'np.floor(', 'round(')(dw_call)
 canary('normalisation dropped', DW, '_normalise_weights', 'asset: (weight / weight_sum)', 'asset: weight')(dw_call)
 canary('negative-weight check after the zero-sum early exit', DW, '_normalise_weights',
@@ -569,4 +569,4 @@ def ls_rejections(c):
         c.ob('nan-price-rejected-with-ValueError', (out == 'ValueError') == has_nan)
 
 
-canary('leverage check allows zero', LS, '_check_set_gross_leverage', 'if gross_leverage <= 0.0:', 'if gross_leverage < 0.0:')(ls_rejections)
+canary('leverage check allows zero', LS, '_check_set_gross_leverage', 'gross_leverage <= 0.0', 'gross_leverage < 0.0')(ls_rejections)
